@@ -18,6 +18,12 @@ def _validator():
     return jsonschema.Draft202012Validator(schema)
 
 
+# clauses about the report as a whole (what C10 / C14 mean by "writes a valid report"); the remaining clauses are content
+# invariants of individual codemods and are C15's own business
+STRUCTURAL = {"report-missing-or-unparsable", "schema", "results-vs-execution-order", "duplicate-result", "failed-and-changed",
+              "changeset-path-missing", "changeset-path-not-relative"}
+
+
 def _nlines(data: bytes) -> int:
     return len(split_nl(data.decode("utf-8", "replace")))
 
